@@ -150,6 +150,74 @@ fn circ_case(out: &mut Out, vector: bool, nq: usize, nc: usize, shots: usize, op
     out.case(&req, &ans);
 }
 
+/// A randomising prelude (H q; measure q -> c for a subset of the qubits, distinct bits) splits the shots over several
+/// ranges; afterwards every shot is in the basis state spelled by its own register word.  The operations that follow are
+/// then checked PER SHOT from that start (request `circfrom`): range-wise bookkeeping (offsets, masks) must not leak
+/// between groups of shots.
+fn split_case(out: &mut Out, rng: &mut SplitMix64, vector: bool)
+{
+    let nq = 1 + rng.below(4) as usize;
+    let nc = nq + 1 + rng.below(5) as usize;
+    let shots = 3 + rng.below(10) as usize;
+    let nsplit = 1 + rng.below(nq as u64) as usize;
+    let qs = distinct_qubits(rng, nsplit, nq);
+    let cs = cbit_list(rng, nsplit, nc, true);
+    let mut prelude = vec![];
+    for (q, c) in qs.iter().zip(cs.iter()) { prelude.push(Op::H(*q)); prelude.push(Op::Measure(*q, *c)); }
+    let ops = gen_ops(rng, vector, nq, nc, false);
+    let mut all = prelude.clone();
+    all.extend(ops.iter().cloned());
+    let seed = rng.next();
+    match run_circuit(vector, nq, nc, shots, &all, seed)
+    {
+        Outcome::Done { circuit, trace } => {
+            let p = prelude.len();
+            let start = &trace[p - 1].cstate;
+            let init: Vec<String> = start.iter().map(|w| {
+                let bits: String = (0..nq).map(|q| match qs.iter().position(|x| *x == q) { Some(i) => if (w >> cs[i]) & 1 == 1 { '1' } else { '0' }, None => '0' }).collect();
+                format!("{} {}", bits, w) }).collect();
+            let req = format!("circfrom {} {} {} {} | init {} | {}", if vector { "v" } else { "s" }, nq, nc, shots, init.join(" "), ops_text(&ops));
+            let cst: Vec<u64> = circuit.cstate().map(|a| a.to_vec()).unwrap_or_default();
+            let t = trace[p..].iter().map(|e| ju(&e.cstate)).collect::<Vec<_>>().join(" / ");
+            out.case(&req, &format!("ok {} | t {} | {}", ju(&cst), t, views_text(&circuit, nc, VEC_MAX)));
+        },
+        Outcome::Panic => out.case(&format!("circfrom-unexpected-panic {}", ops_text(&all)), "panic"),
+        Outcome::RunErr(e) | Outcome::BuildErr(e) => out.case(&format!("circfrom-unexpected-error {}", ops_text(&all)), &format!("err {}", e))
+    }
+}
+
+/// The same Circuit object executed several times with different shot counts (more, fewer, equal): after every run the
+/// register and the three histogram views must be views of exactly the N words of THAT run.
+fn rerun_case(out: &mut Out, rng: &mut SplitMix64, vector: bool)
+{
+    use rand_core::SeedableRng;
+    let nq = 1 + rng.below(3) as usize;
+    let nc = nq + rng.below(3) as usize;
+    let mut ops = vec![];
+    for q in 0..nq { match rng.below(3) { 0 => ops.push(Op::Gate("X", vec![q])), 1 => ops.push(Op::H(q)), _ => {} } }
+    ops.push(Op::MeasureAll(cbit_list(rng, nq, nc.max(nq), true)));
+    let nc = nc.max(nq);
+    let mut c = q1tsim::circuit::Circuit::new(nq, nc);
+    for op in ops.iter() { if add_op(&mut c, op).is_err() { return; } }
+    let counts: Vec<usize> = (0..3).map(|_| *rng.pick(&[1usize, 2, 5, 16, 40, 64])).collect();
+    for (k, &n) in counts.iter().enumerate()
+    {
+        let mut r = rand::rngs::StdRng::seed_from_u64(rng.next());
+        let repr = if vector { q1tsim::circuit::QuStateRepr::vector(nq, n) } else { q1tsim::circuit::QuStateRepr::stabilizer(nq, n) };
+        let res = std::panic::catch_unwind(std::panic::AssertUnwindSafe(|| c.execute_with(n, &mut r, repr)));
+        match res
+        {
+            Ok(Ok(())) => {
+                let cs: Vec<u64> = c.cstate().map(|a| a.to_vec()).unwrap_or_default();
+                // request kind `views`: the model recomputes the three views from the register; the number of words must be n
+                out.case(&format!("views {} | {}", nc, ju(&cs)), &views_text(&c, nc, VEC_MAX));
+                out.case(&format!("nwords {} {} {}", k, n, counts.iter().map(|x| x.to_string()).collect::<Vec<_>>().join(",")), &format!("ok {}", cs.len()));
+            },
+            _ => { out.case(&format!("rerun-unexpected-failure {}", ops_text(&ops)), "harness-error"); return; }
+        }
+    }
+}
+
 fn main()
 {
     let dir = std::env::args().nth(1).expect("usage: c08 <outdir>");
@@ -223,6 +291,8 @@ fn main()
             _ => { out.case(&format!("views {} | unexpected-failure {}", nc, ops_text(&ops)), "harness-error"); }
         }
     }
+    for k in 0..(if thorough() { 4000 } else { 800 }) { split_case(&mut out, &mut rng, k % 2 == 0); }
+    for k in 0..(if thorough() { 1000 } else { 200 }) { rerun_case(&mut out, &mut rng, k % 2 == 0); }
     let n = out.finish();
     eprintln!("c08: {} cases", n);
 }
